@@ -15,7 +15,46 @@ PREFIX = "generator::verif_kani::"
 OK, FAIL, INCONCLUSIVE = "ok", "fail", "inconclusive"
 
 
-def _env():
+def _cap_cbmc(sid, mem_gb, stop):
+    """Per-process address-space cap for the CBMC children of one cargo-kani run (session `sid`) — only CBMC:
+    the Kani driver and rustc need far more virtual memory than they use.  A capped CBMC ends as `Status: ERROR`
+    and is reported inconclusive."""
+    lim = int(mem_gb * (1 << 30))
+    seen = set()
+    while not stop.is_set():
+        try:
+            for d in os.listdir("/proc"):
+                if not d.isdigit() or d in seen:
+                    continue
+                try:
+                    with open("/proc/%s/stat" % d) as fh:
+                        st = fh.read()
+                    comm = st[st.index("(") + 1:st.rindex(")")]
+                    fields = st[st.rindex(")") + 2:].split()
+                    if comm == "cbmc" and int(fields[3]) == sid:
+                        resource.prlimit(int(d), resource.RLIMIT_AS, (lim, lim))
+                        seen.add(d)
+                except (OSError, ValueError):
+                    continue
+        except OSError:
+            pass
+        stop.wait(0.25)
+
+
+def _run_capped(cmd, cwd, log, mem_gb):
+    import threading
+    p = subprocess.Popen(cmd, cwd=cwd, env=_env(), stdout=log, stderr=subprocess.STDOUT, start_new_session=True)
+    stop = threading.Event()
+    t = threading.Thread(target=_cap_cbmc, args=(p.pid, mem_gb, stop), daemon=True)
+    t.start()
+    try:
+        p.wait()
+    finally:
+        stop.set()
+    return p
+
+
+def _env(mem_gb=None):
     e = dict(os.environ)
     e["CARGO_NET_OFFLINE"] = "true"
     e["CARGO_TERM_COLOR"] = "never"
@@ -76,8 +115,7 @@ def run(overlay, names, timeout_s, jobs, mem_gb, log_path, extra_args=()):
     names = [n.split("::")[-1] for n in names]
     t0 = time.time()
     with open(log_path, "w") as log:
-        p = subprocess.run(cmd, cwd=overlay, env=_env(), stdout=log, stderr=subprocess.STDOUT,
-                           preexec_fn=_limit(mem_gb))
+        p = _run_capped(cmd, overlay, log, mem_gb)
     wall = time.time() - t0
     shown = "cargo kani -Z stubbing -Z unstable-options --harness-timeout %ds -j %d --output-format terse --export-json <f> --exact --harness <%d harnesses>" % (timeout_s, jobs, len(names))
     if not os.path.exists(out_json):
@@ -122,7 +160,7 @@ def concrete_playback(overlay, name, timeout_s, mem_gb, log_path):
     cmd = ["cargo", "kani", "--target-dir", TARGET, "-Z", "stubbing", "-Z", "unstable-options", "-Z", "concrete-playback",
            "--concrete-playback=print", "--harness-timeout", "%ds" % timeout_s, "--exact", "--harness", PREFIX + name]
     with open(log_path, "w") as log:
-        subprocess.run(cmd, cwd=overlay, env=_env(), stdout=log, stderr=subprocess.STDOUT, preexec_fn=_limit(mem_gb))
+        _run_capped(cmd, overlay, log, mem_gb)
     with open(log_path, errors="replace") as fh:
         txt = fh.read()
     blocks = re.findall(r"Concrete playback unit test for `[^`]+`:\s*```\s*\n(.*?)```", txt, re.S)
